@@ -24,7 +24,81 @@ def digests(pool, jobs):
     return res
 
 
+def kernel_selftest():
+    """The scheduler must (a) find a lost update in a toy read-modify-write, (b) report a lock-order deadlock on two
+    SimLocks, (c) replay a recorded tape to the same trail, (d) honour scripted schedules."""
+    from optsim.kernel import Sim, SimLock
+    from optsim.tape import Tape
+    ok = True
+
+    def lost_update(tape, script=None):
+        sim = Sim(tape)
+        box = {'v': 0}
+
+        def inc(task):
+            v = box['v']
+            sim.point('between-read-and-write')
+            box['v'] = v + 1
+        sim.spawn('a', inc)
+        sim.spawn('b', inc)
+        if script:
+            sim.policy = ('script',)
+            sim.script = script
+        else:
+            sim.policy = ('random',)
+        sim.run()
+        return box['v'], sim
+
+    found = 0
+    tapes = []
+    for seed in range(200):
+        t = Tape(seed=seed)
+        v, sim = lost_update(t)
+        if v == 1:
+            found += 1
+            tapes.append((t.values, sim.digest()))
+    print('lost update found in %d of 200 seeds' % found)
+    ok &= 20 < found < 200
+    vals, dig = tapes[0]
+    v2, sim2 = lost_update(Tape(replay=vals))
+    print('replay of a failing tape reproduces: value=%d digest equal=%s' % (v2, sim2.digest() == dig))
+    ok &= v2 == 1 and sim2.digest() == dig
+    v3, _ = lost_update(Tape(seed=0), script=[[0, 1], [1, 100], [0, 100]])
+    v4, _ = lost_update(Tape(seed=0), script=[[0, 100], [1, 100]])
+    print('scripted schedules: interleaved -> %d (want 1), serial -> %d (want 2)' % (v3, v4))
+    ok &= v3 == 1 and v4 == 2
+
+    dead = 0
+    for seed in range(100):
+        sim = Sim(Tape(seed=seed))
+        l1, l2 = SimLock(sim, 'l1'), SimLock(sim, 'l2')
+
+        def ab(task):
+            with l1:
+                sim.point('holding-l1')
+                with l2:
+                    pass
+
+        def ba(task):
+            with l2:
+                sim.point('holding-l2')
+                with l1:
+                    pass
+        sim.spawn('ab', ab)
+        sim.spawn('ba', ba)
+        sim.policy = ('random',)
+        sim.run()
+        if sim.deadlock is not None:
+            dead += 1
+    print('lock-order deadlock reported in %d of 100 seeds' % dead)
+    ok &= 5 < dead < 100
+    print('kernel selftest %s' % ('OK' if ok else 'FAILED'))
+    return 0 if ok else 2
+
+
 def main(args):
+    if args.what == 'kernel':
+        return kernel_selftest()
     if args.what != 'determinism':
         print('unknown selftest %r' % args.what)
         return 2
